@@ -51,6 +51,7 @@ class BtRun:
         self.subs: Dict[int, List[int]] = collections.defaultdict(list)   # source index -> handler ids in order
         self.outcome: Any = None
         self.now_errors = 0
+        self.runaway = False
 
     def _now(self) -> Optional[float]:
         try:
@@ -133,6 +134,10 @@ class BtRun:
         async def job():
             tr = run.trace
             tr.add("start", "job", jid, None, when, run._now())
+            if len(tr.rows) > 20000 and not run.runaway:
+                # a dispatcher that keeps re-running work would never end: stop it and let the checker report it
+                run.runaway = True
+                run.d.stop()
             for _ in range(spec.get("steps", 0)):
                 await asyncio.sleep(0)
                 tr.add("resume", "job", jid, None, when, run._now())
@@ -315,6 +320,8 @@ def check_c12(run: BtRun) -> List[Tuple[str, str]]:
 
 def check_c13(run: BtRun) -> List[Tuple[str, str]]:
     out: List[Tuple[str, str]] = []
+    if run.runaway:
+        out.append(("runaway_dispatch", f"more than 20000 trace rows for {len(run.jobs)} jobs: the dispatcher keeps re-running work"))
     if run.outcome != "returned":
         out.append(("run_did_not_return", f"dispatcher.run() {run.outcome}"))
     starts, first_start, last_end, by_event, job_rows = index_trace(run)
